@@ -172,8 +172,8 @@ Full statement (not proved):  for TruncSOk d trunc, 2·n1 ∣ trunc, n1 = 2^(e1+
   el (fft_mfa_trunc_sqrt2 d w n1 trunc xs) (j·n1 + t) = el (fft_full_sqrt2 d w xs) (rev (d+1) (j + n2·t))  modulo p
   for j < n2, t < n1 in the first half, and the same with offset 2n for the rows j = rev s, s < trunc2, of the second;
   and ifft_mfa_trunc_sqrt2 inverts it (4n-fold).
-Missing: the strided plumbing of the model (foldl over columns with getCol/setCol, onRows), the truncated column
-transform mpir_fft_trunc1_twiddle (the twiddled analogue of `fft_trunc1_prefix`) and the inverse direction. -/
+Missing: the strided plumbing of the model (foldl over columns with getCol/setCol, onRows) that connects
+`fft_mfa_trunc_sqrt2` to `mfaRow` / `fft_trunc1_twiddle_prefix`, and the inverse direction. -/
 
 /-- mpir_fft_radix2_twiddle (2n entries of a column, shift w, ws = bits of z, r = first row, c = column, rs = row step):
     position rev(i) holds the DFT value of frequency i times 2^((r + rs·i)·c·ws).  With r = 0, rs = 1 that is the
@@ -190,6 +190,18 @@ theorem fft_radix2_twiddle_bitrev_dft (d w ws r c rs : Nat) (xs : List Int) (i :
 
 example : (el (fft_radix2_twiddle 1 32 4 0 3 1 [1, 2, 3, 4]) (rev 2 1) -
     (1 + 2 * 2 ^ 32 + 3 * (2 ^ 32) ^ 2 + 4 * (2 ^ 32) ^ 3) * 2 ^ (1 * 3 * 4)) % pOf 64 = 0 := by decide +kernel
+
+/-- mpir_fft_trunc1_twiddle: the first `trunc` outputs are exactly those of mpir_fft_radix2_twiddle (the twiddled
+    analogue of `fft_trunc1_prefix`; the columns of the second half matrix). -/
+theorem fft_trunc1_twiddle_prefix (d w ws r c rs trunc : Nat) (xs : List Int) (ht : TruncOk d trunc) (k : Nat)
+    (hk : k < trunc) :
+    el (fft_trunc1_twiddle d w ws r c rs trunc xs) k = el (fft_radix2_twiddle d w ws r c rs xs) k :=
+  fft_trunc1_twiddle_eq d w ws r c rs trunc xs ht k hk
+
+example : (fft_trunc1_twiddle 2 16 2 0 3 1 6 [1, 2, 3, 4, 5, 6, 7, 8]).take 6 =
+    (fft_radix2_twiddle 2 16 2 0 3 1 [1, 2, 3, 4, 5, 6, 7, 8]).take 6 := by decide +kernel
+example : fft_trunc1_twiddle 2 16 2 0 3 1 6 [1, 2, 3, 4, 5, 6, 7, 8] ≠ fft_radix2_twiddle 2 16 2 0 3 1 [1, 2, 3, 4, 5, 6, 7, 8] := by
+  decide +kernel
 
 /-- column pass then row pass of the matrix Fourier transform (n1 = 2^(e1+1) columns, n2 = 2^(e2+1) rows, the model's
     mpir_fft_radix2_twiddle / mpir_fft_radix2 / revbin swaps applied to the extracted columns and rows): row j,
